@@ -60,6 +60,23 @@ def grid(tier):
                                     for dv, dt in dis:
                                         yield {"fam": fam, "x0": x0, "limits": lim, "tol": tol, "kw": kw, "tw": tw, "nsm": nsm,
                                                "broyden": br, "dv": dv, "dt": dt, "lname": lname}
+                                    if F["nk"] > 1 and not br:
+                                        # a knob that was built inactive (so iteration 0 records it inactive) and enabled afterwards
+                                        yield {"fam": fam, "x0": x0, "limits": lim, "tol": tol, "kw": kw, "tw": tw, "nsm": nsm,
+                                               "broyden": br, "dv": (), "dt": (), "lname": lname, "v_inactive": (F["nk"] - 1,),
+                                               "enable_v": (F["nk"] - 1,)}
+    # limits that stop every knob just short of the solution while a finite-difference probe lands inside the tolerance
+    for fam in ("lin1", "ident2", "ident3"):
+        F = O.FAMILIES[fam]
+        gain = 2.0 if fam == "lin1" else 1.0
+        for tol in (1e-3, 1e-6):
+            for frac in (0.75, 1.5):
+                for kw in (None, KW_MIXED[:F["nk"]]):
+                    for nsm in (1, 20):
+                        x0 = [k - 1.0 for k in F["ksol"]]
+                        lim = [(k - 5.0, k - frac * tol / gain) for k in F["ksol"]]
+                        yield {"fam": fam, "x0": x0, "limits": lim, "tol": tol, "kw": kw, "tw": None, "nsm": nsm, "broyden": False,
+                               "dv": (), "dt": (), "lname": f"short-of-solution-{frac}", "steps": tol}
 
 
 def phase2_grid(tier):
